@@ -264,8 +264,24 @@ def handleFs (encs prefer min pre file method ae range : String) : String :=
         (method == "G" || method == "H") && rangeOk range then "fs-ok" else "bad-op"
   | _, _, _, _, _ => "bad-op"
 
+/-! ### the `px` op: the real reverse_proxy (flush timer) behind the real encode handler — goroutines and timers
+    are runtime; the implementation-only oracle judges the caller contract (no two calls into the response writer
+    overlap) and transparency; the model says whether the line is a case. The two-thread transition system and
+    its theorems are in Proxy.lean. -/
+
+def handlePx (coding min ae interval n1 n2 kind sched : String) : String :=
+  match parseInt min, optHex ae, parseNat n1, parseNat n2 with
+  | some _, some _, some a, some b =>
+    if (coding == "gzip" || coding == "zstd") &&
+       (interval == "-1" || (match parseNat interval with | some i => 1 ≤ i && i ≤ 1000 | none => false)) &&
+       1 ≤ a && a ≤ 1048576 && 1 ≤ b && b ≤ 1048576 &&
+       (kind == "t" || kind == "r" || kind == "z" || kind == "m" || kind == "j") &&
+       (sched == "s" || sched == "n") then "px-ok" else "bad-op"
+  | _, _, _, _ => "bad-op"
+
 def handle : List String → String
   | ["cf", args, block] => handleCf args block
+  | ["px", coding, min, ae, interval, n1, n2, kind, sched] => handlePx coding min ae interval n1 n2 kind sched
   | ["fs", encs, prefer, min, pre, file, method, ae, range] => handleFs encs prefer min pre file method ae range
   | [enc, prefer, min, matcher, method, ae, ws, rcc, inm, dct, rf, script] =>
     match parseNames enc, parseNames prefer, parseInt min, parseMatcher matcher,
